@@ -286,6 +286,24 @@ bool noncanonical_nesting(const Basic &b)
     return false;
 }
 
+// a compound subexpression that is a number in disguise (2 - (2 + x) + x): cse can end up with a
+// replacement whose right-hand side is a number, which the certificate format excludes
+bool hidden_number(const Basic &b)
+{
+    if ((is_a<Add>(b) || is_a<Mul>(b) || is_a<Pow>(b))) {
+        try {
+            if (is_a_Number(*expand(b.rcp_from_this())))
+                return true;
+        } catch (const std::exception &) {
+            return true;
+        }
+    }
+    for (auto &a : b.get_args())
+        if (hidden_number(*a))
+            return true;
+    return false;
+}
+
 // (B**-n)**e with non-integer e anywhere in the tree
 bool has_invpow(const Basic &b)
 {
@@ -293,7 +311,12 @@ bool has_invpow(const Basic &b)
         const Pow &p = down_cast<const Pow &>(b);
         if (!is_a<Integer>(*p.get_exp()) && is_a<Pow>(*p.get_base())) {
             const Pow &q = down_cast<const Pow &>(*p.get_base());
-            if (is_a<Integer>(*q.get_exp()) && down_cast<const Integer &>(*q.get_exp()).is_negative())
+            // every inner exponent that opt_cse turns into (B**e)**-1: a negative number or a product
+            // with a negative coefficient
+            RCP<const Basic> ie = q.get_exp();
+            if (is_a<Mul>(*ie))
+                ie = down_cast<const Mul &>(*ie).get_coef();
+            if (is_a_Number(*ie) && down_cast<const Number &>(*ie).is_negative())
                 return true;
         }
     }
@@ -555,7 +578,7 @@ void hx_gen(Rng &rng, const std::string &tier)
         bool bad = false;
         for (auto &e : v)
         {
-            bad = bad || has_invpow(*e) || has_big_exp(*e) || noncanonical_nesting(*e);
+            bad = bad || has_invpow(*e) || has_big_exp(*e) || noncanonical_nesting(*e) || hidden_number(*e);
             double nested = 0;
             double c = ecost(*e, nested);
             bad = bad || c > 400 || nested > 400;
